@@ -140,7 +140,7 @@ class EofPdu(AbstractFileDirectiveBase):
         if expected_min_len > len(data):
             raise BytesTooShortError(expected_min_len, len(data))
         current_idx = eof_pdu.pdu_file_directive.header_len
-        eof_pdu.condition_code = data[current_idx] & 0xF0
+        eof_pdu.condition_code = (data[current_idx] & 0xF0) >> 4
         current_idx += 1
         eof_pdu.file_checksum = data[current_idx : current_idx + 4]
         current_idx += 4
